@@ -11,8 +11,9 @@ for d in sorted(glob.glob(os.path.join(os.path.dirname(os.path.abspath(__file__)
     for c in det:
         for x in checks[c].get('violation_classes',[])[:2]:
             cls.append(c+': '+x.split(' [')[0])
+    tho=[c for c,v in r.get('checks_thorough',{}).items() if v.get('exit')==1 and c not in det]
     ok = r.get('pinned_suite_with_patch')=='pass' and r.get('demo_fails_with_patch') and r.get('demo_passes_on_clean_tree')
-    rows.append('| %s | %s | %s | %s | %s |' % (m['id'], m['property'], m['needs_to_manifest'].replace('|','/'), ', '.join(det) if det else '**none**', '; '.join(sorted(set(cls)))[:160]))
+    rows.append('| %s | %s | %s | %s | %s |' % (m['id'], m['property'], m['needs_to_manifest'].replace('|','/'), (', '.join(det) if det else ('**none**' if not tho else '')) + ((' ' if det else '') + '(thorough tier: ' + ', '.join(tho) + ')' if tho else ''), '; '.join(sorted(set(cls)))[:160]))
 print('| id | written for | needs, to manifest | caught by (quick tier) | violation classes |')
 print('|----|----|----|----|----|')
 print('\n'.join(rows))
